@@ -3,6 +3,7 @@
 From Coq Require Import ZArith List Bool Lia ZifyBool.
 Import ListNotations.
 From Urwid Require Import PyBase geo_padfill_gen Geometry GeometryFacts.
+From Urwid Require Import GeometryLayoutTie.   (* C19's theorems about the padding / filler arithmetic, carried over to this model's translation *)
 Open Scope Z_scope.
 
 Arguments Z.add : simpl never. Arguments Z.sub : simpl never. Arguments Z.mul : simpl never.
@@ -677,12 +678,7 @@ End FrameLocal.
 Lemma ctbf_given_exact maxrow vt vamt h t0 b0 :
   let tb := calculate_top_bottom_filler maxrow vt vamt GGiven h None t0 b0 in
   fst tb + h <= maxrow -> fst tb + h + snd tb = maxrow.
-Proof.
-  unfold calculate_top_bottom_filler. cbv zeta.
-  set (k := int_scale _ _ _). clearbody k.
-  destruct ((b0 + k <? 0) && (0 <? maxrow - h - (b0 + k))) eqn:E1; cbn [fst snd]; [lia|].
-  destruct ((maxrow - h - (b0 + k) <? 0) && (0 <? b0 + k)) eqn:E3; cbn [fst snd]; lia.
-Qed.
+Proof. exact (ctbf_given_exact_c19 maxrow vt vamt h t0 b0). Qed.
 
 (* ---- Overlay ---- *)
 Section OverlayLocal.
@@ -1381,24 +1377,8 @@ Lemma clrp_nonneg maxcol at_ aamt wt wamt minw l r :
   wt <> GClip ->
   0 <= fst (calculate_left_right_padding maxcol at_ aamt wt wamt minw l r) /\
   0 <= snd (calculate_left_right_padding maxcol at_ aamt wt wamt minw l r).
-Proof.
-  intro Hc. unfold calculate_left_right_padding.
-  set (width := if match wt with GRelative => true | _ => false end then _ else _).
-  set (k := int_scale _ _ _). clearbody k width.
-  assert (N : match wt with GClip => false | _ => true end = true) by (destruct wt; congruence).
-  rewrite N. cbn [andb].
-  destruct ((r + k <? 0) && (0 <? maxcol - width - (r + k))) eqn:E1.
-  - match goal with |- context [if ?c then _ else _] => destruct c eqn:E2 end; cbn [fst snd]; lia.
-  - destruct ((maxcol - width - (r + k) <? 0) && (0 <? r + k)) eqn:E3;
-      match goal with |- context [if ?c then _ else _] => destruct c eqn:E2 end; cbn [fst snd]; lia.
-Qed.
+Proof. exact (clrp_nonneg_c19 maxcol at_ aamt wt wamt minw l r). Qed.
 Lemma ctbf_nonneg maxrow vt vamt ht hamt minh t b :
   0 <= fst (calculate_top_bottom_filler maxrow vt vamt ht hamt minh t b) /\
   0 <= snd (calculate_top_bottom_filler maxrow vt vamt ht hamt minh t b).
-Proof.
-  unfold calculate_top_bottom_filler.
-  set (height := if match ht with GRelative => true | _ => false end then _ else _).
-  set (k := int_scale _ _ _). clearbody k height.
-  destruct ((b + k <? 0) && (0 <? maxrow - height - (b + k))) eqn:E1; cbn [fst snd]; [lia|].
-  destruct ((maxrow - height - (b + k) <? 0) && (0 <? b + k)) eqn:E3; cbn [fst snd]; lia.
-Qed.
+Proof. exact (ctbf_nonneg_c19 maxrow vt vamt ht hamt minh t b). Qed.
